@@ -289,6 +289,19 @@ def src(n, kn=DEFAULT, ind=0, prec=0):
         return f"{inner}.{a[1]}"
     if k == "call":
         args = [src(x, kn, ind) for x in a[1]]
+        style = a[3] if len(a) > 3 else "plain"
+        if style == "record":
+            # parameter pack: named arguments, defaulted parameters may be left out (`..`)
+            names, omitted = a[4], a[5]
+            items = [f"{kn.name(nm)} = {ar}" for nm, ar in zip(names, args) if nm not in omitted]
+            if len(items) > 1 and (hash_name(items[0]) & 1):
+                items = items[::-1]          # named arguments may be written in any order
+            pack = "{" + ", ".join(items + ([".."] if omitted else [])) + "}"
+            return f"{kn.name(a[0])}({pack})"
+        if style == "pipe" and len(args) == 1:
+            return f"({args[0]} |> {kn.name(a[0])})"
+        if style == "pipetuple" and len(args) >= 2:
+            return f"(({', '.join(args)}) |> {kn.name(a[0])})"
         if kn.pipe and len(args) == 1:
             return f"({args[0]} |> {kn.name(a[0])})"
         if kn.nl and len(args) > 1:
@@ -320,12 +333,23 @@ class Fn:
         self.name, self.params, self.ptypes, self.ret, self.body = name, params, ptypes, ret, body
         self.uses_self, self.stateful = uses_self, stateful
 
+    def with_body(self, body):
+        """copy of this function with another body (keeps defaults / annotations)"""
+        f = Fn(self.name, self.params, self.ptypes, self.ret, body, self.uses_self, self.stateful)
+        for k in ("defaults", "annot_ret", "tuple_self"):
+            if hasattr(self, k):
+                setattr(f, k, getattr(self, k))
+        return f
+
     def sx(self):
         sh = shape_sx(self.ret) if self.uses_self else "-"
         return f"(fn {self.name} ({' '.join(self.params)}) {sh} {sx(self.body)})"
 
     def src(self, kn=DEFAULT):
-        ps = ", ".join(kn.name(p) + (":float" if self.name == "dsp" or kn.annotate else "") for p in self.params)
+        dfl = getattr(self, "defaults", {})
+        ps = ", ".join(kn.name(p) + (":float" if self.name == "dsp" or kn.annotate or getattr(kn, "annot_params", False) else "")
+                       + (f" = {dfl[p]}" if p in dfl else "")
+                       for p in self.params)
         rt = ""
         if kn.annotate or getattr(self, "annot_ret", False):
             rt = " -> " + type_src(self.ret)
@@ -341,7 +365,18 @@ class Prog:
         f = " ".join(fn.sx() for fn in self.fns)
         return f"(prog (globals {g}) (fns {f}) {self.dsp.sx()})".replace("  ", " ")
 
+    def has_pack_call(self):
+        def walk(n):
+            return (n.kind == "call" and len(n.a) > 3 and n.a[3] == "record") or any(walk(ch) for _, ch in children(n))
+        return any(walk(f.body) for f in self.fns + [self.dsp])
+
     def src(self, kn=DEFAULT):
+        if self.has_pack_call() and not getattr(kn, "annot_params", False):
+            # finding C03-K14: a named-argument call whose argument types are still unresolved (parameters of a function
+            # that is never called) panics `type inference failed`; programs with such calls get annotated parameters
+            import copy
+            kn = copy.copy(kn)
+            kn.annot_params = True
         out = []
         for x, e in self.globals:
             out.append(f"let {kn.name(x)} = {src(e, kn)}")
@@ -446,8 +481,7 @@ class Gen:
             return Node("proj", Node("var", v[0]), r.pick(idx))
         if k == "call":
             f = r.pick([f for f in self.fns if f.ret == F and (ctx["allow_state"] or not f.stateful)])
-            args = [self.simple(d - 1, ctx) for _ in f.ptypes]
-            return Node("call", f.name, args, self.new_site())
+            return self.mk_call(f, d, ctx)
         if k == "appvar":
             v = r.pick(vars_fn)
             return Node("app", Node("var", v[0]), [self.simple(d - 1, ctx) for _ in range(v[1][1])])
@@ -472,6 +506,30 @@ class Gen:
             ctx["used_self"][0] = True
             return Node("bin", r.pick(["add", "mul", "sub"]), Node("self"), self.simple(d - 1, ctx))
         raise ValueError(k)
+
+    def mk_call(self, f, d, ctx):
+        """a direct call of f in one of the surface styles: positional, pipe, tuple pipe, parameter pack with defaults"""
+        r = self.r
+        dfl = getattr(f, "defaults", {})
+        args = [self.simple(d - 1, ctx) for _ in f.ptypes]
+        style, omitted = "plain", []
+        if self.p.get("call_styles", True) and not getattr(f, "tuple_self", False):
+            opts = [("plain", 6)]
+            if len(args) == 1:
+                opts.append(("pipe", 2))
+            if len(args) >= 2:
+                opts.append(("pipetuple", 1))
+            if len(args) >= 2 and dfl:       # (a one-field pack for a one-parameter function is not accepted: finding C03-K12)
+                opts.append(("record", 4))
+            style = r.weighted(opts)
+        if style == "record":
+            # finding C02-K12: a pack that omits a defaulted parameter passes 0 / garbage for it unless the omitted
+            # parameters are alphabetically first; the generator therefore names every parameter (in any order)
+            omitted = []
+            if self.p.get("omit_defaults", False):
+                omitted = [q for q in f.params if q in dfl and r.chance(1, 2)][:len(f.params) - 1]
+            args = [Node("lit", dfl[q]) if q in omitted else a for q, a in zip(f.params, args)]
+        return Node("call", f.name, args, self.new_site(), style, list(f.params), omitted)
 
     def cond(self, d, ctx):
         if self.p.get("numeric_cond", True) and self.r.chance(1, 4):
@@ -498,7 +556,7 @@ class Gen:
             return Node("var", r.pick(vars_t)[0])
         if k == "call":
             f = r.pick(fs)
-            return Node("call", f.name, [self.simple(d - 1, ctx) for _ in f.ptypes], self.new_site())
+            return self.mk_call(f, d, ctx)
         ctx["used_self"][0] = True
         return Node("self")
 
@@ -678,11 +736,20 @@ class Gen:
                    self_type=ret if stateful and self.p.get("self", True) else None, delays=set(), used_self=used_self)
         s0 = self.site
         body = self.block(ret, depth, ctx)
+        defaults = {}
+        if name != "dsp" and self.p.get("defaults", True):
+            for q in reversed(ps):                      # trailing parameters only
+                if self.r.chance(1, 3):
+                    defaults[q] = self.r.pick(NICE)
+                else:
+                    break
         if used_self[0] and ret == F:
             # known finding F18 (WASM rejects a `self` function whose result is a bare tuple projection): keep the
             # result of a `self` function an arithmetic expression
             body = self.arith_tail(body)
-        return Fn(name, ps, [F] * nparams, ret, body, used_self[0], self.site > s0 or used_self[0])
+        fn = Fn(name, ps, [F] * nparams, ret, body, used_self[0], self.site > s0 or used_self[0])
+        fn.defaults = defaults
+        return fn
 
     def arith_tail(self, n):
         if n.kind in ("let", "lett", "set", "letp", "letr", "setf", "letrp"):
@@ -899,14 +966,14 @@ def shrink(p, pred, budget=400):
                 break
     def with_fn(i, body):
         f = p.fns[i]
-        nf = Fn(f.name, f.params, f.ptypes, f.ret, body, f.uses_self, f.stateful)
+        nf = f.with_body(body)
         return Prog(p.globals, p.fns[:i] + [nf] + p.fns[i + 1:], p.dsp)
     for i in range(len(p.fns)):
         body = shrink_node(p.fns[i].body, lambda x, i=i: with_fn(i, x), pred, b)
         p = with_fn(i, body)
     def with_dsp(body):
         d = p.dsp
-        return Prog(p.globals, p.fns, Fn(d.name, d.params, d.ptypes, d.ret, body, d.uses_self, d.stateful))
+        return Prog(p.globals, p.fns, d.with_body(body))
     p = with_dsp(shrink_node(p.dsp.body, with_dsp, pred, b))
     return p
 
@@ -1042,7 +1109,7 @@ def mutant(p, r):
         if new is None:
             continue
         body = replace_at(f.body, path, new)
-        nf = Fn(f.name, f.params, f.ptypes, f.ret, body, f.uses_self, f.stateful)
+        nf = f.with_body(body)
         if fi == len(p.fns):
             return name, Prog(p.globals, p.fns, nf)
         return name, Prog(p.globals, p.fns[:fi] + [nf] + p.fns[fi + 1:], p.dsp)
